@@ -6,7 +6,7 @@
 (* 1-4, or none), body access / limit action on both sides, the request    *)
 (* body size relative to the request limit and whether its length is       *)
 (* announced, and the handler's script: a sequence of operations           *)
-(*   RB read the whole request body      WH(s) WriteHeader(s)              *)
+(*   RB(n) read the whole request body in manner n   WH(s) WriteHeader(s)  *)
 (*   W(k) Write k bytes   RF(k) ReadFrom a reader of k bytes   FL Flush    *)
 (* C18: a request interrupted in a request phase never reaches the         *)
 (* handler and the client gets the interruption's status and no handler    *)
@@ -25,7 +25,10 @@ Scripts ==
     <<Op("FL", 0), Op("W", 4)>>, <<Op("RF", 12)>>, <<Op("WH", 404)>>, <<Op("WH", 204)>>, <<Op("WH", 304)>>,
     <<Op("RB", 0), Op("WH", 200), Op("RF", 8), Op("FL", 0)>>, <<Op("W", 4), Op("W", 4), Op("W", 4)>>, <<Op("RB", 0)>>,
     <<Op("WH", 500), Op("W", 20)>>,
-    <<Op("WH", 103), Op("WH", 200), Op("W", 3)>>, <<Op("WH", 103), Op("WH", 404)>> }     \* an informational status is not the response status
+    <<Op("WH", 103), Op("WH", 200), Op("W", 3)>>, <<Op("WH", 103), Op("WH", 404)>>,      \* an informational status is not the response status
+    \* ways of reading the request body (RB n): 0 all at once, 1 a few bytes with Read and the rest with io.Copy
+    \* (the reader's WriteTo, if it has one), 2 a loop of small reads, 3 io.Copy alone, 4 one byte, then all at once
+    <<Op("RB", 1), Op("W", 5)>>, <<Op("RB", 2), Op("W", 5)>>, <<Op("RB", 3), Op("W", 5)>>, <<Op("RB", 4), Op("W", 5)>> }
 
 Cases == [ deny : 0..4,                                    \* phase of an unconditional deny (0 = none)
            reqAccess : BOOLEAN, reqAction : {"Reject", "ProcessPartial"},
